@@ -15,6 +15,16 @@ import (
 )
 
 func genAtom(r *rand.Rand, d int) string {
+	if os.Getenv("FUZZALPHA") == "unicode" && r.Intn(3) == 0 {
+		if os.Getenv("FUZZNOANY") != "" {
+			// without the atoms that accept a lone invalid byte (known design limit: they also match inside a rune)
+			return []string{`\pL`, `[α-ω]`, `\p{Greek}`, `é`, `日`, `\pL+`, `ω`, `(?i:é)`, `[é日]`, `\p{Han}`, `쫁`, `[\x{10000}-\x{1FFFF}]`}[r.Intn(12)]
+		}
+		return []string{`\pL`, `[α-ω]`, `\p{Greek}`, `é`, `日`, `[^a]`, `\PL`, `(?i:é)`, `[é日]`, `\p{Han}`, `쫁`, `[\x{10000}-\x{1FFFF}]`}[r.Intn(12)]
+	}
+	if os.Getenv("FUZZGRAM") == "2" && r.Intn(2) == 0 {
+		return []string{`\d`, `\d+`, `[a-z]+`, `\s`, `(?:ab|cd)`, `^`, `$`, `[0-9a-f]`, `\w+`, `\s+`, `[^\s]`, `1`, `-`, `\.`, `(?:x|xy)`, `[a-z]*`, `\S+`}[r.Intn(17)]
+	}
 	switch r.Intn(16) {
 	case 0:
 		return "a"
@@ -58,7 +68,12 @@ func genAtom(r *rand.Rand, d int) string {
 }
 func genPiece(r *rand.Rand, d int) string {
 	a := genAtom(r, d)
-	if strings.HasPrefix(a, `\b`) || strings.HasPrefix(a, `\B`) || strings.HasPrefix(a, "(?m") {
+	if os.Getenv("FUZZNOANY") != "" {
+		for a == "." || a == `[^a]` || a == `\B` || a == `\b` {
+			a = genAtom(r, d)
+		}
+	}
+	if strings.HasPrefix(a, `\b`) || strings.HasPrefix(a, `\B`) || strings.HasPrefix(a, "(?m") || a == "^" || a == "$" {
 		return a
 	}
 	switch r.Intn(9) {
@@ -106,6 +121,9 @@ func TestDifferentialCampaign(t *testing.T) {
 	}
 	rng := rand.New(rand.NewSource(int64(seed)))
 	alpha := []byte("abx.fo1 \nFO")
+	if os.Getenv("FUZZGRAM") == "2" {
+		alpha = []byte("abx.fo1 \n-2cdy9 ")
+	}
 	cats := map[string][]string{}
 	for k := 0; k < 8000; k++ {
 		pat := genRe(rng, 0)
@@ -132,6 +150,13 @@ func TestDifferentialCampaign(t *testing.T) {
 				b[j] = alpha[rng.Intn(len(alpha))]
 			}
 			in := string(b)
+			if os.Getenv("FUZZALPHA") == "unicode" {
+				ua := []string{"a", "b", "x", "é", "日", "쫁", "𝐀", "ω", " ", "\n", "Ａ", "1"}
+				in = ""
+				for j := 0; j < n; j++ {
+					in += ua[rng.Intn(len(ua))]
+				}
+			}
 			a, w := fmt.Sprint(re.FindAllStringIndex(in, -1)), fmt.Sprint(std.FindAllStringIndex(in, -1))
 			if a != w || re.MatchString(in) != std.MatchString(in) || fmt.Sprint(re.FindStringSubmatchIndex(in)) != fmt.Sprint(std.FindStringSubmatchIndex(in)) {
 				key := e.Strategy().String()
